@@ -198,7 +198,9 @@ class Sh:
             if p.returncode not in (0, 1) or "Sanitizer" in err or "runtime error:" in err:
                 self.viol("cli-crash:%s" % (sig_of_report(err) or p.returncode), "bloc -i crashed: exit %d %s" % (p.returncode, sig_of_report(err)), dict(wit, stderr=err[-2000:])); continue
             # printed markers only: the echo of the fed source (readline) shows them inside quotes
-            got = [m.group(0) for m in re.finditer(r'(?<!")@@\d+:[^\n]*', p.stdout.decode("latin-1"))]
+            # (readline redraws long input lines, so a fragment of the echo may start right at a marker: in the source a marker is always
+            # followed by the closing quote of its literal, in printed output never)
+            got = [m.group(0) for m in re.finditer(r'(?<!")@@\d+:(?!")[^\n]*', p.stdout.decode("latin-1"))]
             if got != want:
                 k = 0
                 while k < len(got) and k < len(want) and got[k] == want[k]: k += 1
